@@ -79,9 +79,12 @@ Proof.
     destruct (Z.leb_spec 0 (Z.of_nat idx + Z.of_nat (length d))); [|lia].
     destruct (Z.leb_spec (Z.of_nat idx + Z.of_nat (length d)) usize_max); [|lia]. cbn [andb].
     unfold cpiece. replace (Z.of_nat idx + Z.of_nat (length d)) with (Z.of_nat (idx + length d)) by lia.
-    destruct (Z.eqb_spec (Z.of_nat idx) 0) as [E0|E0]; destruct (Nat.eqb_spec idx 0) as [E1|E1]; try lia; cbn [bind].
-    + reflexivity.
-    + destruct (slice line prev idx) as [|y pp] eqn:Esl; cbn [negb bind]; [rewrite app_nil_r; reflexivity|]. rewrite <- app_assoc. reflexivity.
+    (* whatever the shape of the branches (separate, merged, reordered): decide idx = 0 and whether the part is
+       empty, then compare the appended bytes up to associativity *)
+    destruct (Z.eqb_spec (Z.of_nat idx) 0) as [E0|E0]; destruct (Nat.eqb_spec idx 0) as [E1|E1]; try lia.
+    + assert (prev = 0)%nat by lia. subst prev idx. change (slice line 0 0) with (@nil byte).
+      cbn [orb andb negb bind app]; rewrite ?app_nil_r, <- ?app_assoc; reflexivity.
+    + destruct (slice line prev idx) as [|y pp] eqn:Esl; cbn [orb andb negb bind app]; rewrite ?app_nil_r, <- ?app_assoc; reflexivity.
   - unfold find_iter. apply (find_iter_aux_spaced d line 0 0).
   - unfold find_iter. pose proof (find_iter_aux_le d line 0 0) as H. eapply Forall_impl; [|exact H]. cbv beta. intros a Ha. lia.
   - exact Hlen.
